@@ -13,7 +13,7 @@ from __future__ import annotations
 import ast
 
 from .lincomb import LinComb
-from .model import ClassInfo, FuncInfo, Program, call_name, is_self_attr, norm
+from .model import ClassInfo, FuncInfo, Program, call_name, is_self_attr, norm, strip_copy
 from .poly import Rat, eval_expr, sign_atom, sqrt_of
 from .report import AnalysisError
 
@@ -217,6 +217,7 @@ class MatEval:
         return v.v
 
     def ev(self, f, e, env) -> Val:
+        e = strip_copy(e)
         A = self.alg
         if isinstance(e, ast.Constant):
             if e.value is None:
